@@ -212,3 +212,31 @@ CHECKS["C17"] = {
             "> window raised ValueError.",
     "note": _NOTE,
 }
+
+CHECKS["C18"] = {
+    "design_ref": "DESIGN.md section 5 C18",
+    "technique": "runtime post-conditions on multipitch.metrics / evaluate / "
+                 "compute_num_true_positives / compute_accuracy / "
+                 "compute_err_score / resample_multipitch",
+    "text": "Every observed multipitch result satisfied E_tot = E_sub + E_miss + "
+            "E_fa, non-negative errors, accuracy <= min(P, R) (raw and chroma), "
+            "per-frame TP <= min(#ref, #est), chroma TP >= raw TP, and every "
+            "resampled frame was the nearest estimate frame (empty outside the "
+            "estimate's range).",
+    "note": _NOTE,
+}
+CHECKS["C19"] = {
+    "design_ref": "DESIGN.md section 5 C19",
+    "technique": "runtime post-conditions on the inner BSS-eval functions "
+                 "(decomposition sum, permutation optimality from captured SIR "
+                 "matrices), client-boundary relations (scaling, reordering, "
+                 "framewise vs direct), np.empty poisoning",
+    "text": "For every generated source set: decomposition components summed to "
+            "the estimate, the permutation was an optimal permutation and followed "
+            "a reordering of the estimates, bss_eval_sources metrics were scale "
+            "invariant, perfect estimates mapped to the identity with SDR > 60 dB, "
+            "every framewise column equalled the direct call bit for bit, silent "
+            "windows were NaN in every metric, no output carried uninitialised "
+            "memory, arities were as documented incl. empty input.",
+    "note": _NOTE,
+}
